@@ -13,6 +13,18 @@ for l in open(R + '/properties.jsonl'):
     props[p['id']] = p
 
 HINT = {
+    '6': ("Assume the property is already checked by model-based random tests of the main API and of its rarely used overloads and convenience "
+          "wrappers (aliasing between arguments, self-assignment, objects reused after close/clear/reset, const and non-const overloads), by sweeps "
+          "over every length across the implementation's internal buffer sizes, by numeric extremes (giant arrays, subnormal and near-overflow "
+          "values), by combinations of settings, by hostile input decoded between valid uses, by concurrent use of independent objects, by several "
+          "time zones, symbolic links and aliased paths, and by coverage-guided fuzzing of every decoder/parser. Aim at what remains: asymmetries "
+          "between sibling overloads that should behave alike (const char* / String / ByteArray / Array_ forms, with and without explicit length), "
+          "interactions of TWO features of this property that are each tested alone, behaviour that depends on operating-system conditions "
+          "(interrupted or partial system calls, descriptors above 1023, a full or read-only directory, permissions, very long paths, signals, "
+          "LC_NUMERIC / locale), state left behind by a FAILED operation (a failed open/bind/parse followed by a successful one on the same object), "
+          "and the order in which destructors, close() and flush happen. Read the whole anchored source (and the helpers it calls) first and pick the "
+          "least obvious place you can find; both changes must still satisfy every requirement above (unit tests pass, demonstration fails with / "
+          "passes without)."),
     '5': ("Assume the property is already checked by model-based random tests of the main API and of its rarely used overloads and convenience "
           "wrappers, including aliasing between arguments, self-assignment, objects reused after close/clear/reset, const and non-const overloads, "
           "boundary-biased sizes, concurrent use of independent objects, and coverage-guided fuzzing of every decoder/parser. Aim at what remains: "
